@@ -179,7 +179,12 @@ func (c *Counter) Add(n int64) {
 			c.releaseReader(state)
 			return
 
-		case state.locked():
+		case state.locked() || state.readers() > 0:
+			// Locked, or havePtr was cleared while readers are still in flight:
+			// taking the lock now would absorb those readers, whose release
+			// would then underflow the reader count. Only add to extra; the
+			// lock holder, or the last reader (which upgrades to a lock in
+			// releaseReader), flushes it.
 			if !c.state.update(&state, state.addExtra(uint64(n))) {
 				continue
 			}
